@@ -323,6 +323,25 @@ Definition sign_oci (inplace : bool) (tbl : table) (st : state) (c : call_in) : 
       (mk_state h2 (s_stored st ++ [sto])%list, mk_trace RRefDel (Some (deep h2 d)) dg [ref] [sc] [pc])
   end end end end end end.
 
+(* ---------- vocabulary of the theorems ---------- *)
+
+(* the caller's UserMetadata as the heap shows it *)
+Definition meta_of (c : call_in) (h : heap) : amap :=
+  match ci_meta c with None => [] | Some a => hread a h end.
+
+(* the value of key k in the union of two maps (the first wins; the theorems use it where
+   the two are disjoint) *)
+Definition union_lookup (a b : amap) (k : string) : option string :=
+  match lookup k a with Some v => Some v | None => lookup k b end.
+
+(* result classes of a call that got as far as calling the signer *)
+Definition reached_signer (r : res) : bool :=
+  match r with ROk | RRefDel | ESigner | EAnnInfoNil | EAnnTime | EPush => true | _ => false end.
+
+(* a call that was refused: nothing signed, nothing pushed, nothing returned, no state change *)
+Definition refused (st st' : state) (t : trace) : Prop :=
+  st' = st /\ t_signs t = [] /\ t_pushes t = [] /\ t_art t = None /\ reached_signer (t_res t) = false.
+
 (* ---------- histories ---------- *)
 
 Record input := mk_input {
